@@ -748,8 +748,18 @@ func (p c18) Eval(c *Case, outs []*Out) []Discrepancy {
 		if exit != 0 && len(bytes.TrimSpace(o.Stderr)) == 0 && !(mr.Kind == "fault" && mr.Target == "stderr") {
 			add("S1", "silent-failure", fmt.Sprintf("exit %d with empty stderr", exit))
 		}
+		// a replay on a different tree may land the fault on another operation than
+		// the one it was enumerated for: then only T/S1/A are judged
+		aligned := true
+		if mr.Kind == "fault" && mr.Op != "multi" {
+			for _, f := range o.Res.Fired {
+				if !f.Misfit && f.Op != mr.Op {
+					aligned = false
+				}
+			}
+		}
 		// M
-		if mr.MustFail && exit == 0 {
+		if mr.MustFail && exit == 0 && aligned {
 			add("M", "exit0", "the run must fail but exited 0; stderr: "+clip(o.Stderr))
 		}
 		delta := Delta(&c.Runs[i].Spec, o)
@@ -763,7 +773,7 @@ func (p c18) Eval(c *Case, outs []*Out) []Discrepancy {
 			}
 		}
 		// S0 / relaxed M: compare with the fault-free run of the same content
-		if mr.Ref >= 0 && mr.Ref < len(outs) && outs[mr.Ref] != nil && outs[mr.Ref].HasRes {
+		if aligned && mr.Ref >= 0 && mr.Ref < len(outs) && outs[mr.Ref] != nil && outs[mr.Ref].HasRes {
 			ref := outs[mr.Ref]
 			if mr.Target == "stderr" {
 				if (exit == 0) != (ref.Res.Exit == 0) {
